@@ -179,7 +179,8 @@ pub fn run_bulk(bulk: Bulk, h: &[Kv]) -> Result<(), String> {
                 break;
             }
         }
-        let tail: Kv = (b"c".to_vec(), if bulk.is_map() { 9 } else { 0 });
+        // greater than every key of both alphabets
+        let tail: Kv = (vec![0xff, 0xff, 0xff], if bulk.is_map() { 9 } else { 0 });
         let (got, content): (Verdict, Option<Vec<Kv>>) = match bulk {
             Bulk::MapFromIter => match Map::from_iter(h.iter().map(|(k, v)| (k, *v))) {
                 Ok(mp) => (Verdict::Ok, Some(mp.stream().into_byte_vec())),
